@@ -13,11 +13,11 @@ CHECKS = {
             "Trusts num-bigint integer arithmetic and BigDecimal::as_bigint_and_exponent as the observation point. Does not establish absence outside the explored cases.",
             "5 C01"),
     "C02": ("exhaustive enumeration of word-boundary twins + proptest generation, differential against the exact order of rationals, release and debug-assertion builds",
-            "Exploration with an exhaustively enumerated sub-scope: all 1- and 2-word operands from the 32-bit carry/overflow boundary words x scale gaps x {twin, +1, -1} x signs; generated twins/neighbours/same-magnitude pairs up to 3000 digits, scale differences beyond 2^63, u64/u128 straddles, sort/max/min vectors. Every operator on BigDecimal and BigDecimalRef is compared with the oracle order; panics are violations (second build with debug assertions and overflow checks).",
+            "Exploration with an exhaustively enumerated sub-scope: all 1- and 2-word operands from the 32-bit carry/overflow boundary words x scale gaps x {twin, +1, -1} x signs; an exhaustive sweep of EVERY scale gap 1..1500 (5000 thorough) over coefficients around powers of two and ten with decimal and binary-structured neighbours (+-1, +2^32 .. +2^192); generated twins/neighbours/same-magnitude pairs up to 3000 digits, scale differences beyond 2^63, u64/u128 straddles, sort/max/min vectors; plain, sign-flipped and abs references. Every operator on BigDecimal and BigDecimalRef is compared with the oracle order; panics are violations (second build with debug assertions and overflow checks).",
             "Oracle: adjusted-exponent-first exact comparison on (BigInt, i128). Trusts num-bigint.",
             "5 C02"),
     "C03": ("exhaustive small-scope enumeration + proptest generation of value-equal representation pairs; byte-stream comparison through a recording Hasher",
-            "Exploration: all canonical |n| < 2000 x scales -6..6 x 0..8 extra zeros each side exhaustively; generated twins up to 1500 digits, zeros over the whole +-10^5 scale range, negative scale versus written-out zeros up to 90000 zeros. Byte stream, DefaultHasher, SipHasher13 and HashSet membership are compared; both build flavours.",
+            "Exploration: all canonical |n| < 2000 x scales -6..6 x 0..8 extra zeros each side exhaustively; every zero-run length 1..2500 (10000 thorough); generated twins up to 1500 digits incl. limb-structured integers (zero / all-ones 64-bit limbs ending in decimal zeros), zeros over the whole +-10^5 scale range, negative scale versus written-out zeros up to 90000 zeros. Byte stream, DefaultHasher, SipHasher13 and HashSet membership are compared; both build flavours.",
             "Equality of each pair is asserted by the exact oracle, not by the library. |scale| <= 10^5 as in the property.",
             "5 C03"),
     "C04": ("round-trip property testing (render -> library parser and independent reference evaluator) over a complete length x scale grid plus proptest generation",
@@ -73,7 +73,7 @@ CHECKS = {
             "pad_integral model validated against std's integer formatting in the oracle's unit tests.",
             "5 C16"),
     "C17": ("proptest generation of decimals and JSON number texts (+ libFuzzer in the thorough tier); round-trip and differential against the reference evaluator; recording serializer",
-            "Exploration: decimals of 1..400 digits with scales to +-150000 (+-1), each Display notation; JSON numbers of 1..2000 digits with fractions/exponents and malformed variants; serde value deserializers of every integer/float width; json_num / json_num_option in a derived struct incl. null; no panic on either build flavour.",
+            "Exploration: decimals of 1..400 digits with scales to +-150000 (+-1), each Display notation; JSON numbers of 1..2000 digits with fractions/exponents and malformed variants; exponents at the scale limit, at m*2^32 + d and beyond i64; every number also read through a serde_json::Value; serde value deserializers of every integer/float width; json_num / json_num_option in a derived struct incl. null, through text and through Value; no panic on either build flavour. One open known finding (plain BigDecimal from a Value number goes through f64, see known-findings.txt) is recognised by an oracle-computed signature and reported as KNOWN-FINDING.",
             "Uses serde_json 1.0.117 (arbitrary_precision) from the repository's lock file.",
             "5 C17"),
     "C18": ("exhaustive enumeration (k = 0..5000 powers of ten, all 5-digit values x scales) + proptest generation; string-built expectations",
